@@ -266,6 +266,27 @@ template <class V, class T, class Api = ApiPrimary> struct VecRun
         }
         case 10:
         {
+            if constexpr (std::is_same<Api, ApiPrimary>::value)
+                if (big_mode() && s.below(6) == 0)
+                {
+                    // a request the allocator refuses (std::allocator throws before asking for memory): the vector must be
+                    // exactly what it was — the operations that follow run on it
+                    size_t cap0 = v.capacity();
+                    bool threw = false;
+                    c.log("v%d.reserve(SIZE_MAX/2)[refused] ", i);
+                    c.label("refused_allocation");
+                    try
+                    {
+                        v.reserve(SIZE_MAX / 2);
+                    }
+                    catch (const std::exception &)
+                    {
+                        threw = true;
+                    }
+                    VP_CHECK(threw, "vec_reserve_refused", "v%d.reserve(SIZE_MAX/2) returned normally", i);
+                    VP_CHECK(v.capacity() == cap0, "vec_reserve_refused", "v%d: capacity() is %zu after a refused reserve, it was %zu", i, (size_t)v.capacity(), cap0);
+                    break;
+                }
             size_t k = big_mode() ? big_size(s, std::is_same<T, int>::value) : s.below(40);
             snprintf(name, sizeof name, "v%d.reserve(%zu)", i, k);
             c.log("%s ", name);
